@@ -30,3 +30,8 @@ pub fn sort_preferred(
     }
     out
 }
+
+#[cfg(feature = "server")]
+pub use crate::rewind::Rewind;
+#[cfg(feature = "server")]
+pub use crate::server::conn::auto::verif_read_version;
